@@ -1170,17 +1170,7 @@ struct MapKey<'a, R: 'a> {
 
 macro_rules! deserialize_numeric_key {
     ($method:ident) => {
-        fn $method<V>(self, visitor: V) -> Result<V::Value>
-        where
-            V: de::Visitor<'de>,
-        {
-            let value = tri!(self.de.deserialize_number(visitor));
-            if self.de.parser.read.next() != Some(b'"') {
-                return Err(self.de.parser.error(ErrorCode::ExpectedQuote));
-            }
-
-            Ok(value)
-        }
+        deserialize_numeric_key!($method, deserialize_number);
     };
 
     ($method:ident, $delegate:ident) => {
